@@ -39,7 +39,9 @@ EXHAUSTIVE = {'quick': True, 'thorough': True}
 NOTES = ['the loops\' state spaces (8^5, 9^5) are enumerated completely in both tiers; user tables are a seeded sweep',
          'gen/GenTables.v is re-exported from the library under test at the start of every run and the finite theorems '
          'are re-proved against it']
-ASSUMPTIONS = ['states and images are Python/NumPy ints (the tables are exported as Z; a non-int image is exported as -1)',
+ASSUMPTIONS = ['states and images of the built-in loops are Python/NumPy ints (the tables are exported as Z; a non-int image is '
+               'exported as -1); user tables over quarter-integral float states are carried scaled by 4 (exact), so the '
+               'model keys stay integers and 2.0 == 2 is one key, as in a Python dict',
                'the neighbourhood is a 3x3 block indexable as n[i][j] (ndarray or the masked array of evolve2d)',
                'insertion order of rule_table is not compared (the property does not constrain it)']
 TRUSTED = ['harness/gen_tables.py (AST reader and exporter of the rule tables; its output is cross-checked in Python and '
@@ -112,6 +114,37 @@ def _fill(data, k, junk):
 def rot(k):
     c, t, r, b, l = k
     return (c, l, t, r, b)
+
+
+def _unscale(v, scale, as_float):
+    """the real state carried as the integer v = state * scale (scale 4: quarter-integral floats, exact in binary);
+    an integral state is handed over as int or as float (2.0 == 2 and hash alike: same dict key)"""
+    if scale == 1:
+        return int(v)
+    if v % scale == 0 and not as_float:
+        return int(v // scale)
+    return v / scale
+
+
+def _rescale(x, scale):
+    y = x * scale
+    if y != int(y):
+        raise ValueError('state %r is not a multiple of 1/%d' % (x, scale))
+    return int(y)
+
+
+def _real_block(q, scale, form):
+    vals = [[_unscale(x, scale, form != 'list') for x in row] for row in q]
+    if form == 'list':
+        return vals                                   # nested Python lists, ints where integral
+    if form == 'object':
+        return np.array(vals, dtype=object)
+    if form == 'int64':
+        return np.array(vals, dtype=np.int64)
+    arr = np.array(vals, dtype=np.float64)
+    if form == 'masked':
+        return np.ma.masked_array(arr, VN_MASK)
+    return arr
 
 
 def _chunk_codes(rule, c, t, masked, dom=9):
@@ -221,6 +254,29 @@ def run_impl(c):
                                 codes.append(_code(rule, n, (1, 1), 1))
             return [_items(rule.rule_table), codes]
         return list(call_impl(go, timeout=60))
+    if op == 'userx':
+        def go():
+            sc = c['scale']
+            d = {tuple(_unscale(x, sc, (x + i) % 2 == 0) for i, x in enumerate(k)): v for k, v in c['items']}
+            rule = cpl.CTRBLRule(d, add_rotations=c['add_rot'])
+            tbl = [[[_rescale(x, sc) for x in k], int(v)] for k, v in rule.rule_table.items()]
+            answers = []
+            for q in c['queries']:
+                arr = _real_block(q, sc, c['form'])
+                answers.append(list(call_impl(lambda: int(rule(arr, (1, 1), 1)))))
+            return [tbl, answers]
+        return list(call_impl(go, timeout=60))
+    if op == 'usergrid':
+        def go():
+            sc = c['scale']
+            d = {tuple(_unscale(x, sc, (x + i) % 2 == 0) for i, x in enumerate(k)): _unscale(v, sc, False)
+                 for k, v in c['items']}
+            rule = cpl.CTRBLRule(d, add_rotations=c['add_rot'])
+            g = np.array([c['g']], dtype=np.float64) / sc if sc > 1 else np.array([c['g']], dtype=np.int64)
+            out = cpl.evolve2d(g, timesteps=2, apply_rule=rule, r=1, neighbourhood='von Neumann',
+                               memoize=c.get('memoize', False))
+            return [[_rescale(x, sc) for x in row] for row in np.asarray(out[1]).tolist()]
+        return list(call_impl(go, timeout=60))
     if op == 'userq':
         def go():
             d = {tuple(k): v for k, v in c['items']}
@@ -288,6 +344,12 @@ def to_coq(c, obs):
         edits = list(c['edits']) + ([[k, -1] for k, _ in c['items']] if c.get('clear') else [])
         return '(CAlias %s %s %s %s %s %s)' % (ctable(c['items']), cbool(c['add_rot']), cnat(c['ns']), ctable(edits),
                                               ctable(tbl), '[' + '; '.join(_pack(ch) for ch in chunks) + ']')
+    if op == 'userx':
+        tbl, answers = ([], [['exc', 'OtherError']] * len(c['queries'])) if bad else obs[1]
+        qs = '[' + '; '.join('(%s, %s)' % (cgrid(n), cres(a, cz)) for n, a in zip(c['queries'], answers)) + ']'
+        return '(CUserQ %s %s %s %s)' % (ctable(c['items']), cbool(c['add_rot']), ctable(tbl), qs)
+    if op == 'usergrid':
+        return '(CUserGrid %s %s %s %s)' % (ctable(c['items']), cbool(c['add_rot']), cgrid(c['g']), cres(obs, cgrid))
     if op == 'userq':
         tbl, answers = ([], [['exc', 'OtherError']] * len(c['queries'])) if bad else obs[1]
         qs = '[' + '; '.join('(%s, %s)' % (cgrid(n), cres(a, cz)) for n, a in zip(c['queries'], answers)) + ']'
@@ -305,7 +367,7 @@ def nontrivial(c, obs):
         return any(d <= 8 for d in obs[1])
     if op in ('user', 'alias'):
         return any(d <= 8 for d in obs[1][1])
-    if op == 'userq':
+    if op in ('userq', 'userx'):
         return any(a[0] == 'ok' for a in obs[1][1])
     return True
 
@@ -405,6 +467,52 @@ def generate(rng, tier):
         yield {'kind': 'user/%s/%s' % ('conflicts' if conflicts else 'one-image', 'rotations' if add_rot else 'plain'),
                'op': 'user', 'items': _user_table(rng, ns, conflicts), 'add_rot': add_rot, 'ns': ns,
                'masked': i % 5 == 0, 'dtype': ['int64', 'int32', 'uint8', 'int8', 'float64'][i % 5] if i % 3 else None}
+    # ---- user tables over NON-INTEGER states (quarter-integral floats, carried x4), negative ints, ints beyond
+    #      int64: the property quantifies over all user tables and neighbourhoods. Queries: listed keys and their
+    #      turns, random keys, and keys that are absent ONLY because of a fraction (one component moved by 1/4 .. 3/4,
+    #      so that its truncation towards zero or its rounding is a listed key)
+    nx = 150 if tier == 'quick' else 1500
+    specs = [('fractional', 4, [0, 2, 4, 6, 8, -2, 1, 5, -6], ['float64', 'list', 'masked', 'object']),
+             ('negative', 1, [-3, -2, -1, 0, 1], ['int64', 'list', 'object']),
+             ('bigint', 1, [0, 1, -1, 2 ** 31, 2 ** 63, 2 ** 64 + 1, -2 ** 70], ['object', 'list'])]
+    for name, scale, pool, forms in specs:
+        for i in range(nx if name == 'fractional' else nx // 2):
+            d = {}
+            for _ in range(rng.randint(1, 10)):
+                k = tuple(rng.choice(pool) for _ in range(5))
+                d[k] = rng.randrange(9)
+                if rng.random() < 0.4:
+                    d[rng.choice(_rot_class(k))] = rng.randrange(9) if i % 2 else d[k]
+            items = [[list(k), v] for k, v in d.items()]
+            qs = []
+            for j in range(10):
+                u = rng.random()
+                if u < 0.45:
+                    k = rng.choice(_rot_class(rng.choice(list(d))))
+                elif u < 0.8 and scale > 1:
+                    k = list(rng.choice(_rot_class(rng.choice(list(d)))))
+                    pos = rng.randrange(5)
+                    k[pos] += rng.choice([1, 2, 3, -1, -2, -3])
+                    k = tuple(k)
+                else:
+                    k = tuple(rng.choice(pool) for _ in range(5))
+                cc, t, r, b, l = k
+                qs.append([[rng.choice(pool), t, rng.choice(pool)], [l, cc, r], [rng.choice(pool), b, rng.choice(pool)]])
+            form = forms[i % len(forms)]
+            yield {'kind': 'usertable/%s/%s' % (name, form), 'op': 'userx', 'scale': scale, 'items': items,
+                   'add_rot': i % 3 != 0, 'queries': qs, 'form': form}
+    # float / negative-int grids through evolve2d with a user CTRBLRule (states and images x scale)
+    nxg = 24 if tier == 'quick' else 200
+    import itertools
+    for i in range(nxg):
+        scale, S = (4, rng.choice([[0, 2, 4], [0, 2, -2], [0, 1, 6], [2, 4]])) if i % 3 else (1, [-2, -1, 0])
+        total = i % 2 == 0
+        items = [[list(k), rng.choice(S)] for k in itertools.product(S, repeat=5) if total or rng.random() < 0.9]
+        rng.shuffle(items)
+        R, C = rng.randint(1, 5), rng.randint(1, 5)
+        yield {'kind': 'usertable/%s/evolve2d' % ('fractional' if scale > 1 else 'negative'), 'op': 'usergrid',
+               'scale': scale, 'items': items, 'add_rot': i % 4 == 1,
+               'g': [[rng.choice(S) for _ in range(C)] for _ in range(R)], 'memoize': i % 5 == 4}
     # ---- marker keys: five pairwise distinct states pin each rotation down as a permutation of positions
     for i, perm in enumerate([(0, 1, 2, 3, 4), (4, 3, 2, 1, 0), (2, 0, 4, 1, 3), (1, 2, 3, 4, 0)]):
         for add_rot in (True, False):
@@ -488,6 +596,19 @@ def shrink(c):
         items = c['items']
         for i in range(len(items)):
             yield dict(c, items=items[:i] + items[i + 1:])
+    if op == 'userx':
+        if len(c['queries']) > 1:
+            for i in range(len(c['queries'])):
+                yield dict(c, queries=[c['queries'][i]])
+        items = c['items']
+        for i in range(len(items)):
+            yield dict(c, items=items[:i] + items[i + 1:])
+    if op == 'usergrid':
+        g = c['g']
+        if len(g) > 1:
+            yield dict(c, g=g[:-1])
+        if len(g[0]) > 1:
+            yield dict(c, g=[row[:-1] for row in g])
     if op == 'userq':
         if len(c['queries']) > 1:
             for i in range(len(c['queries'])):
